@@ -29,7 +29,7 @@ META = dict(
            "precomputed matrix of symbolic size K = uninterpreted symmetric zero-diagonal function M(i,j)"],
     assumptions=["delta_empty > 0, alpha >= 0, beta >= 0", "segments longer than SEGMENT_PRECISION",
                  "category matrices symmetric with zero diagonal (what check_if_dissim probes)"],
-    cfg_budget_s=dict(quick=200, thorough=1500),
+    cfg_budget_s=dict(quick=200, thorough=900),
 )
 
 LABEL_PATTERNS = [("x", "x"), ("x", "y"), (None, None), (None, "x")]
